@@ -300,7 +300,7 @@ def structured_requests(real, rng, state, n):
 
 
 def mask_sets(ctx):
-    if not ctx.quick or ctx.widened:
+    if not ctx.quick or ctx.widened or getattr(ctx, "c13_all_masks", False):
         return ["".join(m) for m in itertools.product("01", repeat=9)], "all 512 subsets of the nine switches"
     ms = {ALL_ON, "0" * 9}
     for i in range(9):
@@ -423,6 +423,15 @@ def run(ctx):
         _run(ctx, batch)
     finally:
         batch.finish()
+
+
+def search(ctx):
+    """failing-input search: thorough tier = thorough sizes with a fresh seed; quick tier = a second quick-sized pass with a
+    fresh seed and all 512 switch subsets (keeps a failing quick run within a couple of minutes)"""
+    if ctx.quick:
+        ctx.widened = False
+        ctx.c13_all_masks = True
+    run(ctx)
 
 
 def _run(ctx, batch):
